@@ -105,6 +105,8 @@ Lemma store_abs s p inp : abs_done (store s p inp) = abs_done s.
 Proof. unfold store; destruct inp; reflexivity. Qed.
 Lemma store_subs s p inp : subs (store s p inp) = subs s.
 Proof. unfold store; destruct inp; reflexivity. Qed.
+Lemma store_saved s p inp : saved (store s p inp) = saved s.
+Proof. unfold store; destruct inp; reflexivity. Qed.
 
 (* ------------------------------------------------------------------ *)
 (* expressions                                                          *)
@@ -197,6 +199,10 @@ Record Inv (c : cfg) (s : mstate) : Prop := {
   inv_ok : forall p i, tracked s p -> find_inst (c_insts c) (p_id p) = Some i ->
            needs_ok p = true -> p_manual p = true \/ prereqs_ok i p = true;
   inv_subs : NoDup (subs s);
+  inv_saved : forall p, In p (saved s) ->
+      valid_id c (p_id p) /\ (forall k, In k (p_sat p) -> In k (done s)) /\
+      (forall i, find_inst (c_insts c) (p_id p) = Some i -> needs_ok p = true ->
+                 p_manual p = true \/ prereqs_ok i p = true);
 }.
 
 Lemma Inv_init c : Inv c (init_state c).
@@ -208,6 +214,7 @@ Proof.
   - intros k [].
   - intros p i [[]|[]].
   - constructor.
+  - intros p [].
 Qed.
 
 Lemma subset_keys_In a b : subset_keys a b = true -> forall k, In k a -> In k b.
@@ -237,7 +244,7 @@ Qed.
 
 (* hold bookkeeping does not touch anything the invariant talks about *)
 Lemma Inv_with_hold c s l hp : Inv c s -> Inv c (with_hold s l hp).
-Proof. intros [I1 I2 I3 I4 I5 I6]. constructor; auto. Qed.
+Proof. intros [I1 I2 I3 I4 I5 I6 I7]. constructor; auto. Qed.
 Lemma Inv_add_hold c s t : Inv c s -> Inv c (add_hold s t).
 Proof. intros I. unfold add_hold. destruct (mem tid_eqb t (to_hold s)); [exact I|now apply Inv_with_hold]. Qed.
 Lemma Inv_fold_add_hold c ids : forall s, Inv c s -> Inv c (fold_left add_hold ids s).
@@ -278,7 +285,7 @@ Proof.
   { intros k Hk. rewrite Ha1. eapply expected_sat0_abs; eauto. }
   rename I' into I. apply andb_true_iff in Eb.
   destruct Eb as [Eb1 Eb2]. apply Z.leb_le in Eb1, Eb2.
-  destruct I as [I1 I2 I3 I4 I5 I6]. unfold tracked in *. rewrite Hp1, Hl1 in *.
+  destruct I as [I1 I2 I3 I4 I5 I6 I7]. unfold tracked in *. rewrite Hp1, Hl1 in *.
   constructor; unfold tracked; cbn.
   - rewrite Hp1. exact I1.
   - rewrite Hp1. intros p [Hp|[<-|Hp]].
@@ -295,6 +302,7 @@ Proof.
     + cbn in Hn. discriminate.
     + eapply I5; eauto. right. eapply In_remove_task; eauto.
   - exact I6.
+  - exact I7.
 Qed.
 
 Lemma Inv_add c s t s' : Inv c s -> step c s (EAdd t) = Ok s' -> Inv c s'.
@@ -303,7 +311,7 @@ Proof.
   destruct (find_task (limbo s) t) as [p|] eqn:Ef; [|discriminate].
   destruct (existsb (fun q => tid_eqb (p_id q) t) (pool s)) eqn:Ep; [discriminate|].
   injection H as <-. apply find_task_In in Ef. destruct Ef as [Hin Hid].
-  destruct I as [I1 I2 I3 I4 I5 I6].
+  destruct I as [I1 I2 I3 I4 I5 I6 I7].
   assert (Htr : forall q, In q (pool s ++ [p]) \/ In q (remove_task (limbo s) t) -> tracked s q).
   { intros q [Hq|Hq].
     - apply in_app_or in Hq. destruct Hq as [Hq|[<-|[]]]; [now left|now right].
@@ -315,6 +323,7 @@ Proof.
   - exact I4.
   - intros q i Hq. apply I5. auto.
   - exact I6.
+  - exact I7.
 Qed.
 
 (* replacing one tracked task by an updated copy *)
@@ -325,7 +334,7 @@ Lemma Inv_store c s t p inp p' :
              p_manual p' = true \/ prereqs_ok i p' = true) ->
   Inv c (store s p' inp).
 Proof.
-  intros [I1 I2 I3 I4 I5 I6] Hl Hid Hsat Hok.
+  intros [I1 I2 I3 I4 I5 I6 I7] Hl Hid Hsat Hok.
   apply lookup_spec in Hl. destruct Hl as [Hpid Hin].
   assert (Htp : tracked s p) by (destruct inp; [now left|now right]).
   constructor.
@@ -338,13 +347,21 @@ Proof.
     + rewrite Hid in Hi. auto.
     + eapply I5; eauto.
   - rewrite store_subs. exact I6.
+  - rewrite store_saved, store_done. exact I7.
 Qed.
 
 Lemma Inv_with_done c s l :
   Inv c s -> (forall k, In k (done s) -> In k l) -> Inv c (with_done s l).
 Proof.
-  intros [I1 I2 I3 I4 I5 I6] Hl. constructor; unfold tracked; cbn; auto.
+  intros [I1 I2 I3 I4 I5 I6 I7] Hl. constructor; unfold tracked; cbn.
+  - exact I1.
+  - exact I2.
   - intros p k Hp Hk. apply Hl. eapply I3; eauto.
+  - intros k Hk. apply Hl. auto.
+  - exact I5.
+  - exact I6.
+  - intros p Hp. destruct (I7 p Hp) as [A [B C]]. split; [exact A|]. split; [|exact C].
+    intros k Hk. apply Hl. auto.
 Qed.
 
 Lemma Inv_sat c s t msgs new s' : Inv c s -> step c s (ESat t msgs new) = Ok s' -> Inv c s'.
@@ -368,8 +385,8 @@ Proof.
     unfold out_done in Em. apply mem_key_In in Em. destruct k'; exact Em. }
   eapply Inv_store; eauto.
   - cbn. intros k Hk. apply in_app_or in Hk. destruct Hk as [Hk|Hk]; [auto|].
-    destruct I as [_ _ I3 _ _ _]. eapply I3; eauto.
-  - intros i0 Hi0 Hn. cbn in Hn. destruct I as [_ _ _ _ I5 _].
+    destruct I as [_ _ I3 _ _ _ _]. eapply I3; eauto.
+  - intros i0 Hi0 Hn. cbn in Hn. destruct I as [_ _ _ _ I5 _ _].
     destruct (I5 p i0 Htp Hi0 Hn) as [Hm|Hp]; [left; exact Hm|right].
     eapply prereqs_ok_mono; [|exact Hp]. cbn. intros k Hk. apply in_or_app. now right.
 Qed.
@@ -377,14 +394,15 @@ Qed.
 Lemma Inv_output c s t o s' : Inv c s -> step c s (EOutput t o) = Ok s' -> Inv c s'.
 Proof.
   intros I H. cbn [step] in H.
-  destruct (lookup s t) as [[p inp]|] eqn:El; [|discriminate].
+  destruct (lookup s t) as [[p inp]|] eqn:El;
+    [|injection H as <-; apply Inv_with_done; [exact I|intros k Hk; now right]].
   destruct (has_out (p_outs p) o); [discriminate|]. injection H as <-.
   pose proof (lookup_spec _ _ _ _ El) as [Hpid Hin].
   assert (Htp : tracked s p) by (destruct inp; [now left|now right]).
   apply Inv_with_done; [|rewrite store_done; intros k Hk; now right].
   eapply Inv_store; eauto.
-  - cbn. intros k Hk. destruct I as [_ _ I3 _ _ _]. eapply I3; eauto.
-  - intros i Hi Hn. destruct I as [_ _ _ _ I5 _]. exact (I5 p i Htp Hi Hn).
+  - cbn. intros k Hk. destruct I as [_ _ I3 _ _ _ _]. eapply I3; eauto.
+  - intros i Hi Hn. destruct I as [_ _ _ _ I5 _ _]. exact (I5 p i Htp Hi Hn).
 Qed.
 
 Lemma ready_prereqs i p : ready i p = true -> prereqs_ok i p = true.
@@ -393,11 +411,13 @@ Proof. unfold ready. rewrite !andb_true_iff. tauto. Qed.
 Lemma Inv_state c s t st h q r s' : Inv c s -> step c s (EState t st h q r) = Ok s' -> Inv c s'.
 Proof.
   intros I H. cbn [step] in H.
-  destruct (lookup s t) as [[p inp]|] eqn:El; [|discriminate].
+  destruct (lookup s t) as [[p inp]|] eqn:El;
+    [|injection H as <-; exact I].
   destruct (find_inst (c_insts c) t) as [i|] eqn:Ei; [|discriminate].
   destruct (negb (status_eqb st (p_status p)) && negb (trans_ok p (p_status p) st)) eqn:E1; [discriminate|].
   destruct (q && negb (p_queued p) && negb (ready i (set_flags p h false r))) eqn:E2; [discriminate|].
-  destruct (negb r && p_runahead p && negb (within_limit s p) && negb (p_manual p)) eqn:E3; [discriminate|].
+  destruct (negb r && p_runahead p && negb (within_limit s p) && negb (p_manual p) && negb (is_final (p_status p))) eqn:E3;
+    [discriminate|].
   destruct (status_eqb st Preparing && negb (status_eqb (p_status p) Preparing) && p_held p && negb (p_manual p)) eqn:E4;
     [discriminate|].
   destruct (h && negb (p_held p) && negb (hold_expected s t)); [discriminate|].
@@ -413,9 +433,9 @@ Proof.
   pose proof (lookup_spec _ _ _ _ El) as [Hpid Hin].
   assert (Htp : tracked s p) by (destruct inp; [now left|now right]).
   eapply Inv_store; eauto.
-  - cbn. intros k Hk. destruct I as [_ _ I3 _ _ _]. eapply I3; eauto.
+  - cbn. intros k Hk. destruct I as [_ _ I3 _ _ _ _]. eapply I3; eauto.
   - intros i0 Hi0 Hn. rewrite Hpid in Hi0. rewrite Ei in Hi0. injection Hi0 as <-.
-    destruct I as [_ _ _ _ I5 _].
+    destruct I as [_ _ _ _ I5 _ _].
     assert (Hold : needs_ok p = true -> p_manual p = true \/ prereqs_ok i p = true).
     { intros Hn'. apply (I5 p i Htp); [rewrite Hpid; exact Ei|exact Hn']. }
     cbn [p_manual set_flags set_status].
@@ -446,9 +466,9 @@ Qed.
 
 (* events that only touch bookkeeping fields *)
 Lemma Inv_relq c s l : Inv c s -> Inv c (with_relq s l).
-Proof. intros [I1 I2 I3 I4 I5 I6]. constructor; auto. Qed.
+Proof. intros [I1 I2 I3 I4 I5 I6 I7]. constructor; auto. Qed.
 Lemma Inv_limit c s l : Inv c s -> Inv c (with_limit s l).
-Proof. intros [I1 I2 I3 I4 I5 I6]. constructor; auto. Qed.
+Proof. intros [I1 I2 I3 I4 I5 I6 I7]. constructor; auto. Qed.
 
 Lemma Inv_release c s l s' : Inv c s -> step c s (ERelease l) = Ok s' -> Inv c s'.
 Proof.
@@ -457,7 +477,7 @@ Proof.
   destruct (negb (forallb chk l)) eqn:E1; [discriminate|].
   destruct (negb (release_ok c s _)) eqn:E2 in H; [discriminate|].
   injection H as <-. apply negb_false_iff in E1. rewrite forallb_forall in E1.
-  destruct I as [I1 I2 I3 I4 I5 I6].
+  destruct I as [I1 I2 I3 I4 I5 I6 I7].
   set (f := fun p => if mem tid_eqb (p_id p) l then set_rel p true else p).
   assert (Hid : forall p, p_id (f p) = p_id p) by (intros p; unfold f; destruct (mem tid_eqb (p_id p) l); reflexivity).
   assert (Hsat : forall p, p_sat (f p) = p_sat p) by (intros p; unfold f; destruct (mem tid_eqb (p_id p) l); reflexivity).
@@ -486,6 +506,7 @@ Proof.
       subst p0. rewrite !andb_true_iff in E1. destruct E1 as [_ E1]. apply orb_true_iff in E1. exact E1.
     + eapply I5; eauto. now left.
   - exact I6.
+  - exact I7.
 Qed.
 
 Lemma Inv_submit c s t sn s' : Inv c s -> step c s (ESubmit t sn) = Ok s' -> Inv c s'.
@@ -496,15 +517,16 @@ Proof.
   destruct (negb (status_eqb (p_status p) Preparing)); [discriminate|].
   destruct (mem (pair_eqb tid_eqb Nat.eqb) (t, sn) (subs s)) eqn:Em; [discriminate|].
   destruct (negb (Nat.ltb _ (i_tries i)) && negb (p_manual p)) in H; [discriminate|].
+  destruct (Z.ltb (stop_point s) (fst t) && negb (p_manual p)) in H; [discriminate|].
   injection H as <-.
   assert (El : lookup s t = Some (p, true)) by (unfold lookup; now rewrite Ef).
   pose proof (lookup_spec _ _ _ _ El) as [Hpid Hin].
   assert (Htp : tracked s p) by now left.
   assert (I' : Inv c (store s (set_sn p sn) true)).
   { eapply Inv_store; eauto.
-    - cbn. intros k Hk. destruct I as [_ _ I3 _ _ _]. eapply I3; eauto.
-    - intros i0 Hi0 Hn. destruct I as [_ _ _ _ I5 _]. exact (I5 p i0 Htp Hi0 Hn). }
-  destruct I' as [J1 J2 J3 J4 J5 J6]. unfold store in *. cbn in *.
+    - cbn. intros k Hk. destruct I as [_ _ I3 _ _ _ _]. eapply I3; eauto.
+    - intros i0 Hi0 Hn. destruct I as [_ _ _ _ I5 _ _]. exact (I5 p i0 Htp Hi0 Hn). }
+  destruct I' as [J1 J2 J3 J4 J5 J6 J7]. unfold store in *. cbn in *.
   constructor; auto. cbn. constructor; [|exact J6].
   intros Hc. assert (mem (pair_eqb tid_eqb Nat.eqb) (t, sn) (subs s) = true)
     by (apply (mem_In _ pair_eqb_sub_eq); exact Hc). congruence.
@@ -516,7 +538,7 @@ Proof.
   destruct (find_task (pool s) t) as [p|] eqn:Ef; [|discriminate].
   destruct (find_inst (c_insts c) t) as [i|] eqn:Ei; [|discriminate].
   destruct (b && negb _) in H; [discriminate|]. injection H as <-.
-  destruct I as [I1 I2 I3 I4 I5 I6].
+  destruct I as [I1 I2 I3 I4 I5 I6 I7].
   constructor; unfold tracked; cbn.
   - now apply NoDup_remove_task.
   - intros q [Hq|Hq]; apply I2; [left; eapply In_remove_task; eauto|now right].
@@ -524,6 +546,7 @@ Proof.
   - exact I4.
   - intros q i0 [Hq|Hq]; eapply I5; [left; eapply In_remove_task; eauto|now right].
   - exact I6.
+  - exact I7.
 Qed.
 
 Lemma Inv_merge c s t fl s' : Inv c s -> step c s (EMerge t fl) = Ok s' -> Inv c s'.
@@ -533,15 +556,15 @@ Proof.
   pose proof (lookup_spec _ _ _ _ El) as [Hpid Hin].
   assert (Htp : tracked s p) by (destruct inp; [now left|now right]).
   eapply Inv_store; eauto.
-  - cbn. intros k Hk. destruct I as [_ _ I3 _ _ _]. eapply I3; eauto.
-  - intros i Hi Hn. destruct I as [_ _ _ _ I5 _]. exact (I5 p i Htp Hi Hn).
+  - cbn. intros k Hk. destruct I as [_ _ I3 _ _ _ _]. eapply I3; eauto.
+  - intros i Hi Hn. destruct I as [_ _ _ _ I5 _ _]. exact (I5 p i Htp Hi Hn).
 Qed.
 
 Lemma Inv_abs c s k s' : Inv c s -> step c s (EAbs k) = Ok s' -> Inv c s'.
 Proof.
   intros I H. cbn [step] in H.
   destruct (out_done s (fst k) (snd k)) eqn:Eo; [|discriminate]. injection H as <-.
-  destruct I as [I1 I2 I3 I4 I5 I6]. constructor; unfold tracked; cbn; auto.
+  destruct I as [I1 I2 I3 I4 I5 I6 I7]. constructor; unfold tracked; cbn; auto.
   intros k' [<-|Hk]; [|auto]. unfold out_done in Eo. apply mem_key_In in Eo. destruct k; exact Eo.
 Qed.
 
@@ -562,7 +585,7 @@ Proof.
   destruct (negb (forallb _ (pool s))) in H; [discriminate|].
   destruct (existsb _ (pool s)) in H; [discriminate|].
   injection H as <-.
-  destruct I as [I1 I2 I3 I4 I5 I6].
+  destruct I as [I1 I2 I3 I4 I5 I6 I7].
   constructor; unfold tracked; cbn.
   - rewrite map_map. rewrite (map_ext _ p_id) by (intros p; apply (tick_counters_fields c s p)). exact I1.
   - intros q [Hq|[]]. apply in_map_iff in Hq. destruct Hq as [p [<- Hp]].
@@ -575,6 +598,57 @@ Proof.
     rewrite Hi' in Hi. rewrite Hm. rewrite Hno in Hn.
     rewrite (prereqs_ok_ext i _ p Hs). eapply I5; eauto. now left.
   - exact I6.
+  - exact I7.
+Qed.
+
+Lemma Inv_with_stop c s sp m st : Inv c s -> Inv c (with_stop s sp m st).
+Proof. intros [I1 I2 I3 I4 I5 I6 I7]. constructor; auto. Qed.
+
+Lemma restored_fields p :
+  p_id (restored p) = p_id p /\ p_sat (restored p) = p_sat p /\ p_manual (restored p) = p_manual p.
+Proof. unfold restored. repeat split. Qed.
+
+Lemma restored_needs_ok p : needs_ok (restored p) = true -> needs_ok p = true.
+Proof.
+  unfold needs_ok, restored. cbn. destruct (p_status p); cbn; intros H; try discriminate; reflexivity.
+Qed.
+
+Lemma Inv_restart c s s' : Inv c s -> step c s ERestart = Ok s' -> Inv c s'.
+Proof.
+  intros [I1 I2 I3 I4 I5 I6 I7] H. cbn [step] in H. injection H as <-.
+  constructor; unfold tracked; cbn.
+  - constructor.
+  - intros p [[]|[]].
+  - intros p k [[]|[]].
+  - exact I4.
+  - intros p i [[]|[]].
+  - exact I6.
+  - intros q Hq. apply in_map_iff in Hq. destruct Hq as [p [<- Hp]].
+    destruct (restored_fields p) as [Hid [Hsat Hman]]. rewrite Hid, Hsat, Hman.
+    split; [apply I2; now left|]. split; [intros k Hk; eapply I3; [left; eauto|auto]|].
+    intros i Hi Hn. rewrite (prereqs_ok_ext i (restored p) p Hsat).
+    eapply I5; [left; eauto|exact Hi|now apply restored_needs_ok].
+Qed.
+
+Lemma Inv_restore c s v s' : Inv c s -> step c s (ERestore v) = Ok s' -> Inv c s'.
+Proof.
+  intros [I1 I2 I3 I4 I5 I6 I7] H. cbn [step] in H.
+  destruct (find_task (saved s) (v_id v)) as [p|] eqn:Ef; [|discriminate].
+  destruct (negb (view_matches p v)); [discriminate|].
+  destruct (existsb (fun q => tid_eqb (p_id q) (v_id v)) (pool s)) eqn:Ep; [discriminate|].
+  injection H as <-. apply find_task_In in Ef. destruct Ef as [Hin Hid].
+  destruct (I7 p Hin) as [A [B C]].
+  constructor; unfold tracked; cbn.
+  - rewrite map_app. cbn. apply NoDup_snoc; [auto|]. rewrite Hid. now apply existsb_id_false.
+  - intros q [Hq|Hq]; [|apply I2; now right].
+    apply in_app_or in Hq. destruct Hq as [Hq|[<-|[]]]; [apply I2; now left|exact A].
+  - intros q k [Hq|Hq] Hk; [|eapply I3; [right; eauto|auto]].
+    apply in_app_or in Hq. destruct Hq as [Hq|[<-|[]]]; [eapply I3; [left; eauto|auto]|auto].
+  - exact I4.
+  - intros q i [Hq|Hq] Hi Hn; [|eapply I5; eauto; now right].
+    apply in_app_or in Hq. destruct Hq as [Hq|[<-|[]]]; [eapply I5; eauto; now left|auto].
+  - exact I6.
+  - intros q Hq. apply I7. eapply In_remove_task; eauto.
 Qed.
 
 (* one accepted step preserves the invariant *)
@@ -599,8 +673,21 @@ Proof.
   - cbn in H. injection H as <-. now apply Inv_with_hold.
   - cbn in H. injection H as <-. now apply Inv_with_hold.
   - cbn in H. injection H as <-. now apply Inv_with_hold.
+  - eapply Inv_restart; eauto.
+  - eapply Inv_restore; eauto.
+  - cbn in H. destruct (saved s); [injection H as <-; exact I|discriminate].
+  - cbn in H. injection H as <-. now apply Inv_with_stop.
+  - cbn in H. injection H as <-. apply Inv_limit. now apply Inv_with_stop.
+  - cbn in H. injection H as <-. now apply Inv_with_stop.
+  - cbn in H. destruct (stop_task s); [|discriminate]. destruct (out_done s t o_succeeded); [|discriminate].
+    injection H as <-. now apply Inv_with_stop.
+  - cbn in H. destruct (negb _) in H; [discriminate|].
+    destruct m; try (injection H as <-; exact I);
+      (destruct (existsb _ _) in H; [discriminate|injection H as <-; exact I]).
+  - cbn in H. destruct (negb _) in H; [discriminate|]. destruct (negb _) in H; [discriminate|].
+    injection H as <-. exact I.
   - eapply Inv_tick; eauto.
-  - cbn in H. repeat (destruct (existsb _ _) in H; [discriminate|]). injection H as <-. exact I.
+  - cbn in H. repeat (destruct (existsb _ _) in H; [discriminate|]). injection H as <-. now apply Inv_with_stop.
 Qed.
 
 Lemma exec_Inv c tr : forall s s', Inv c s -> exec c s tr = Some s' -> Inv c s'.
